@@ -261,3 +261,23 @@ pub extern "C" fn nf_r_new_load2() {
     vassert(idx_checked(&g, 34) == 0, 48);
     drop(g);
 }
+
+// ------------------------------------------------------------------ C03 across churn, minimal (K=4 reachable)
+/// thread 1 (new): one helping load, then the thread exits
+#[no_mangle]
+pub extern "C" fn nf_r1_load_exit() {
+    let g = a().load();
+    idx_checked(&g, 33);
+    drop(g);
+    thread_exit_self(1);
+}
+/// thread 3 (started after thread 1 has exited): store(obj1), then a load which must not return anything older
+#[no_mangle]
+pub extern "C" fn nf_r3_store_load_rec() {
+    a().store(pool(1).clone());
+    let g = a().load();
+    let i = idx_checked(&g, 34);
+    vassert(i == 1 || i == 2, 35);
+    *CX_RES[0].mu() = i;
+    drop(g);
+}
